@@ -2,6 +2,7 @@ import Driver.Common
 import Driver.Sec
 import Emitter.Model.Broker
 import Emitter.Model.Mqtt
+import Emitter.Spec.Retained
 namespace Driver.Brk
 open Emitter Emitter.Security Emitter.Broker Emitter.Trie Driver
 
@@ -101,7 +102,16 @@ def stepLine (st : St) (ws : List String) (_impl : String) : St × Ans :=
       | _, _, _ => (st, bad)
   | ["sub", name, mid, k, rest, qos] =>
       match mid.toNat?, st.topic k rest, qos.toNat? with
-      | some mid, some t, some q => apply st name (.subscribe (UInt16.ofNat mid) t (UInt8.ofNat q)) false true none
+      | some mid, some t, some q =>
+          -- the broker model has no clock: every stored message of a session carries the session's second, so a
+          -- from/until window either contains all of them or none (Spec.inWindow); in the latter case nothing is replayed
+          let ch := parseChannel (fixTopic t)
+          if Broker.Spec.inWindow st.now ch.window then
+            apply st name (.subscribe (UInt16.ofNat mid) t (UInt8.ofNat q)) false true none
+          else
+            let (b, out) := step st.auth st.b name (.subscribe (UInt16.ofNat mid) t (UInt8.ofNat q))
+            let out := out.filter (fun e => !(e.1 == name && (match e.2 with | .pub _ _ => true | _ => false)))
+            ({ st with b := b }, { m := renderOut st out false true none })
       | _, _, _ => (st, bad)
   | ["unsub", name, mid, k, rest] =>
       match mid.toNat?, st.topic k rest with
